@@ -87,7 +87,7 @@ func c06Execute(in *cacheIn, env *Env, failAt int, kind string, second int) (ex 
 		committed := model.Clone() // what the remote must look like until the next Commit
 		dirty := false             // a Commit failed under a fault: the remote is in between until one succeeds
 		checkRemote := func(want *ModelTree, when string, clause string) *Failure {
-			got, c, msg := WalkFS(base)
+			got, c, msg := WalkFSLimit(base, want.WalkLimit())
 			if c != "" {
 				return failf("C06/"+c, "remote-walk", "%s: %s", when, msg)
 			}
